@@ -62,11 +62,12 @@ def closure(x1, x2):
     return want
 
 
-def _run(choices, x1, x2, fail1):
+def _run(choices, x1, x2, fail1, cfg=None, want=None, fcp=2):
+    cfg = cfg or CFG
     import cylc.flow.task_action_timer as tat
     from cylc.flow.task_job_mgr import TaskJobManager
     tat.time = lambda: 1000.0
-    pool = fx.pool(CFG, real_events=True)
+    pool = fx.pool(cfg, real_events=True)
     tem = pool.task_events_mgr
     tem.spawn_func = pool.spawn_on_output
     from vf.fx import XtrigStub
@@ -107,7 +108,7 @@ def _run(choices, x1, x2, fail1):
                     if v and int(k.point) >= 1 and (
                             k.point, k.task, k.output) not in completed:
                         return False
-            if not (1 <= int(t.point) <= 2):
+            if not (1 <= int(t.point) <= fcp):
                 return False
             submitted.append((t.tdef.name, int(t.point)))
             t.waiting_on_job_prep = False
@@ -144,7 +145,7 @@ def _run(choices, x1, x2, fail1):
     else:
         return False                  # did not finish within the bound
     # --- end of run
-    want = closure(x1, x2)
+    want = want or closure(x1, x2)
     counts = {}
     for s in submitted:
         counts[s] = counts.get(s, 0) + 1
@@ -184,6 +185,29 @@ def run(c1: int, c2: int, c3: int, c4: int, c5: int, c6: int, c7: int,
         return _run(cs, x1, x2, fail1)
 
 
+CFG3 = fx.cfg('run3')
+# mixed recurrences: foo on P1 (1..4); bar, baz on P2 (1, 3) with
+# foo[-P1] => bar (bar@1: pre-initial parent; bar@3 <- foo@2); qux once at 2
+# off the absolute foo[^]
+WANT3 = {('foo', 1), ('foo', 2), ('foo', 3), ('foo', 4), ('bar', 1),
+         ('bar', 3), ('baz', 1), ('baz', 3), ('qux', 2)}
+
+
+def run3(c1: int, c2: int, c3: int, c4: int, c5: int, c6: int, c7: int,
+         c8: int) -> bool:
+    """
+    pre: sl(c1=c1)
+    pre: 0 <= c1 <= 3 and 0 <= c2 <= 3 and 0 <= c3 <= 3 and 0 <= c4 <= 3
+    pre: 0 <= c5 <= 3 and 0 <= c6 <= 3 and 0 <= c7 <= 3 and 0 <= c8 <= 3
+    pre: SLICE['n'] >= 8 or (c7 == 0 and c8 == 0)
+    pre: SLICE['n'] >= 6 or (c5 == 0 and c6 == 0)
+    post: _
+    """
+    cs = [fork_int(c, 0, 3) for c in (c1, c2, c3, c4, c5, c6, c7, c8)]
+    with concrete():
+        return _run(cs, False, False, False, CFG3, WANT3, 4)
+
+
 def OBLIGATIONS(tier):
     big = tier == 'thorough'
     t = 1800 if big else 170
@@ -191,7 +215,9 @@ def OBLIGATIONS(tier):
     return [Ob(f'run[c1={c1},c2={c2}]', 'run', timeout=t,
                twin=(c1 == 0 and c2 == 0),
                slice={'c1': c1, 'c2': c2, 'alt': alt, 'n': n})
-            for c1 in range(alt + 1) for c2 in range(alt + 1)]
+            for c1 in range(alt + 1) for c2 in range(alt + 1)] + [
+        Ob(f'run3[c1={c1}]', 'run3', timeout=t, twin=(c1 == 0),
+           slice={'c1': c1, 'n': 8 if big else 6}) for c1 in range(4)]
 
 
 def VALIDATE():
@@ -199,4 +225,6 @@ def VALIDATE():
     assert _run([0] * 8, False, False, False)
     assert _run([1, 0, 2, 1, 0, 3, 0, 0], True, True, True)
     assert _run([3, 3, 3, 3, 3, 3, 3, 3], True, False, False)
-    return n + 3
+    assert _run([0] * 8, False, False, False, CFG3, WANT3, 4)
+    assert _run([1, 2, 3, 0, 1, 2, 3, 1], False, False, False, CFG3, WANT3, 4)
+    return n + 5
